@@ -192,6 +192,44 @@ def ret_str(res):
 
 
 # --------------------------------------------------------------------------------------------
+# reading a structure's state: through the private attribute when it exists (cheapest, most direct),
+# through the public surface otherwise — a refactoring that renames a private attribute no test and no
+# other module touches must not blind the harness
+
+
+def cms_bins(obj):
+    """the counters of a count-min style sketch, row-major"""
+    try:
+        return list(obj._bins)
+    except AttributeError:
+        import struct as _struct
+
+        data = bytes(obj)
+        n = obj.width * obj.depth
+        return list(_struct.unpack("<%di" % n, data[: 4 * n]))
+
+
+def bloom_setbits(obj):
+    """number of non-zero cells of a Bloom / counting Bloom filter"""
+    try:
+        return obj._cnt_number_bits_set()
+    except AttributeError:
+        cells = obj.bloom
+        if getattr(cells, "typecode", "B") == "B" or isinstance(cells, (bytes, bytearray, memoryview)):
+            return sum(bin(b).count("1") for b in bytes(cells)[: obj.bloom_length])
+        return sum(1 for c in cells if c > 0)
+
+
+def qf_internals(qf):
+    """(occupied, continuation, shifted bit strings, remainders) or None when the representation is not the
+    known one (the observable facets — hashes, count, size — are compared regardless)"""
+    try:
+        return (qf._is_occupied.as_string(), qf._is_continuation.as_string(), qf._is_shifted.as_string(), list(qf._filter))
+    except AttributeError:
+        return None
+
+
+# --------------------------------------------------------------------------------------------
 # suites
 
 
